@@ -205,6 +205,22 @@ class FuncAnalysis:
         self._n_unk += 1
         return ('unk', why, self._n_unk)
 
+    def _counters(self):
+        return dict(self._ver), dict(getattr(self, '_nth', {}))
+
+    def _restore_counters(self, snap):
+        self._ver = dict(snap[0])
+        self._nth = dict(snap[1])
+
+    def _merge_counters(self, other):
+        for k, v in other[0].items():
+            if v > self._ver.get(k, 0):
+                self._ver[k] = v
+        self._nth = getattr(self, '_nth', {})
+        for k, v in other[1].items():
+            if v > self._nth.get(k, 0):
+                self._nth[k] = v
+
     def _bump(self, base):
         if not self.versioned or base[0] in ('c', 'g', 'unk'):
             return
@@ -483,15 +499,22 @@ class FuncAnalysis:
         c = self.ev(s.test)
         self._emit('branch', s, cond=c)
         pre = dict(self.env)
+        # counters (mutation versions, evaluations of impure calls) count along a path: the two arms
+        # of a conditional both start from the state at the branch point, so that swapping the arms
+        # does not renumber them
+        cnt_pre = self._counters()
         self._guards.append((c, True, 'if'))
         st_a = self._block(s.body)
         self._guards.pop()
         env_a = self.env
+        cnt_a = self._counters()
+        self._restore_counters(cnt_pre)
         self.env = dict(pre)
         self._guards.append((c, False, 'if'))
         st_b = self._block(s.orelse) if s.orelse else None
         self._guards.pop()
         env_b = self.env
+        self._merge_counters(cnt_a)
         if st_a is not None and st_b is not None:
             self.env = env_a
             # both arms leave: report the weaker status
@@ -518,6 +541,12 @@ class FuncAnalysis:
         else:
             self._n_while = getattr(self, '_n_while', 0) + 1
             base = f'W{self._n_while}'
+        # two structurally equal loops in the two arms of a conditional are told apart by the
+        # condition they run under (not by the order the arms are written in)
+        ifg = sorted(repr(c if p else T.not_(c)) for c, p, kind in self._guards if kind in ('if', 'return', 'raise'))
+        if ifg:
+            import hashlib
+            base = base + '~' + hashlib.md5(repr(ifg).encode()).hexdigest()[:3]
         lid = base
         k = 1
         while lid in self.loops:
